@@ -263,11 +263,26 @@ class Check:
         sys.exit(1)
 
     def prove(self, files):
-        """Build the Coq development; record obligations of the given property files."""
+        """Build the Coq development; record obligations of the given property files.
+        Only this property's own files (and what they depend on) decide: a broken obligation of another
+        property must not raise an alarm here (make -k builds everything that can be built)."""
         ok, log, failing = coq_make()
         names = count_theorems(files)
         self.obligations = names
         self.prop_files = files
+        if not ok:
+            stale = []
+            with Lock("coq"):
+                for f in files:
+                    sub = "gen" if os.path.exists(os.path.join(COQ, "gen", f)) else "theories"
+                    rc, _ = sh(["make", "-q", "%s/%s" % (sub, f.replace(".v", ".vo"))], cwd=COQ, timeout=120)
+                    if rc != 0:
+                        stale.append(f)
+            if not stale:
+                ok = True
+                self.coverage["other_properties_broken"] = "the Coq build failed in files this property does not depend on (%s); ignored here" % (failing or "see make log")
+            else:
+                failing = "%s (not built: %s)" % (failing, ", ".join(stale))
         if ok:
             self.discharged = list(names)
             self.assumptions = print_assumptions(self.prop, [f for f in files if f.startswith("Properties")],
